@@ -64,7 +64,7 @@ def main():
 
     # (B) specification -> code: behaviours of the life-cycle machine simulated by TLC, replayed on the real library
     import behaviours
-    bres, behs = behaviours.simulate("C03_sim", F, ["x", "y"], num=(60 if quick else 600), depth=(7 if quick else 9), seed=core.seed())
+    bres, behs = behaviours.simulate("C03_sim", F, ["x", "y"], num=(110 if quick else 900), depth=(7 if quick else 9), seed=core.seed())
     rep.add_mc("TLC simulation of Rtamt.tla (Parse/Pastify/Update/Reset): behaviours generated for replay", bres, exhaustive=False)
     if bres["violated"]:
         rep.mc_violation("C03_sim", bres)
